@@ -77,15 +77,16 @@ type Fn struct {
 
 // Gen generates one program.
 type Gen struct {
-	U     *Universe
-	Opt   Options
-	Fns   []*Fn
-	nvar  int
-	nlab  int
-	yk    int // yield point counter
-	depth int
-	Stats map[string]int
-	VariT *Type // element type of the variadic helper
+	U          *Universe
+	Opt        Options
+	Fns        []*Fn
+	nvar       int
+	nlab       int
+	yk         int // yield point counter
+	depth      int
+	Stats      map[string]int
+	VariT      *Type // element type of the variadic helper
+	usedLabelS map[*FuncCtx]bool
 }
 
 // Options selects generator features.
